@@ -6029,8 +6029,9 @@ class FlowIRConcrete(object):
 
     def invalidate_cache_for_component(self, comp_id):
         # VV: Component names may contain characters that are special in regular expressions (e.g. `a+b`),
-        # escape them so that the pattern matches the literal cache label
-        self._cache.invalidate_reg_expression(r'component:.*:stage%s:%s' % (
+        # escape them so that the pattern matches the literal cache label. Platform names are arbitrary strings:
+        # (?s) lets `.` match a line break too
+        self._cache.invalidate_reg_expression(r'(?s)component:.*:stage%s:%s' % (
             comp_id[0], re.escape(str(comp_id[1]))))
 
     def update_component(self, comp_id, new_flowir):
